@@ -851,7 +851,14 @@ class Exec:
         v = s.value
         if isinstance(v, ast.Call) and isinstance(v.func, ast.Attribute) and isinstance(v.func.value, ast.Name) \
                 and v.func.value.id == "logger":
-            self.interp.dropped.add(f"{self.qual}: logger.{v.func.attr}(...)")
+            self.interp.dropped.add(f"{self.qual}: logger.{v.func.attr}(...) [the call is dropped; its argument expressions are evaluated]")
+            # the logging call itself has no effect on the program state, but evaluating its arguments can raise (an attribute that the object at hand
+            # does not have, a failing format): exceptions of the program propagate; what the interpreter cannot evaluate stays dropped
+            for a in list(v.args) + [k.value for k in v.keywords]:
+                try:
+                    self.expr(a)
+                except OutsideSubset:
+                    pass
             return
         self.expr(s.value)
 
@@ -1256,6 +1263,18 @@ class Exec:
             return list(it)
         if isinstance(it, str):
             return list(it)
+        if isinstance(it, SymRange):
+            # a loop over a symbolic range that has no contract (e.g. code moved into a new helper): explored for 0, 1 and 2 iterations only.  Violations found
+            # on these paths are real (the iteration counts are feasible under the path condition); the loop is NOT proved -- an UNDECIDED obligation records that.
+            lo, hi = lift(it.lo), lift(it.hi)
+            k = self.ctx.choose(4, f"unrolled iterations of {what}")
+            self.ctx.run.ob(f"{self.qual}/loop-without-contract-explored-by-bounded-unrolling", core.UNKNOWN, "pyvc",
+                            detail=f"{what}: no loop contract (invariant) applies to this loop over a symbolic range; explored for up to 2 iterations only")
+            if k == 3:
+                raise Infeasible()  # longer runs: not explored
+            n_it = hi - lo if not isinstance(hi - lo, int) else z3.IntVal(hi - lo)
+            self.ctx.assume(z3.If(n_it < 0, 0, n_it) == k)
+            return [lo + j for j in range(k)]
         raise OutsideSubset(f"{what}: cannot iterate {it!r} concretely")
 
     # ---- expressions -----------------------------------------------------------------
